@@ -252,6 +252,13 @@ func Explore(P *Program, pkg *ssa.Package, spec HarnessSpec, nworkers int, solve
 					st.Samples = append(st.Samples, res.sample)
 				}
 				queue = append(queue, res.forks...)
+				if st.Unknowns >= 10 && !stop {
+					// branch-feasibility queries no solver answers are resolved by keeping the branch, which is
+					// sound but costs minutes each: an exploration that keeps meeting them is cut short and
+					// reported as inconclusive
+					st.Inconclusive = append(st.Inconclusive, fmt.Sprintf("exploration stopped: %d branch-feasibility queries unanswered by every solver", st.Unknowns))
+					stop = true
+				}
 				if len(st.Errors) > 20 || len(st.Violations) >= 25 || len(st.Inconclusive) >= 3 {
 					// (an exploration that keeps meeting queries no solver answers is inconclusive
 					// already: going on would only add minutes per such query)
